@@ -2,7 +2,8 @@
    A member is (key, shape, aligned axes); keys are numbered.  Definitions only. *)
 From NDV Require Export M_Slicing M_Sequence.
 
-Record member := mkM { mkey : Z; mshape : list Z; mal : list Z }.
+(* mseq: the member is an NDCubeSequence; its shape is (number of cubes, cube shape ...), axis 0 the sequence axis *)
+Record member := mkM { mkey : Z; mshape : list Z; mal : list Z; mseq : bool }.
 Record coll := mkColl { members : list member; aligned : bool }.   (* aligned = false: aligned_axes is None *)
 
 (* ---- _update_aligned_axes (after the repair: the index array is copied per member) ------------- *)
@@ -61,18 +62,30 @@ Fixpoint int_positions (i : Z) (its : list item) : list Z :=
 Definition n_aligned (c : coll) : nat :=
   match members c with m :: _ => if aligned c then length (mal m) else O | [] => O end.
 
+(* one member sliced with its item.  A cube with no dimension left has no WCS: cube slicing refuses it.  A sequence
+   hands the first entry of the item to its list of cubes (an integer picks one cube: the result is that cube,
+   sliced) and the rest to every cube, which refuse likewise when nothing would be left of them. *)
+Definition slice_member (m : member) (its : list item) : result member :=
+  match sliced_shape (mshape m) (member_item m its) with
+  | Err e => Err e
+  | Ok sh =>
+      let still_seq := mseq m && negb (match member_item m its with it :: _ => is_int it | [] => false end) in
+      match (if still_seq then tl sh else sh) with
+      | [] => Err EValue
+      | _ => Ok (mkM (mkey m) sh (mal m) still_seq)
+      end
+  end.
+
 Definition coll_slice (c : coll) (its : list item) : result coll :=
   if negb (aligned c) then Err EIndex
   else if Nat.ltb (n_aligned c) (length its) then Err EIndex
   else
-    match mapr (fun m => match sliced_shape (mshape m) (member_item m its) with
-                         | Ok [] => Err EValue          (* a 0-d cube has no WCS: cube slicing refuses *)
-                         | Ok sh => Ok (mkM (mkey m) sh (mal m)) | Err e => Err e end) (members c) with
+    match mapr (fun m => slice_member m its) (members c) with
     | Err e => Err e
     | Ok ms' =>
         match update_aligned_axes (int_positions 0 its) (members c) with
-        | None => Ok (mkColl (map (fun m => mkM (mkey m) (mshape m) []) ms') false)
-        | Some als => Ok (mkColl (map (fun '(m, al) => mkM (mkey m) (mshape m) al) (combine ms' als)) true)
+        | None => Ok (mkColl (map (fun m => mkM (mkey m) (mshape m) [] (mseq m)) ms') false)
+        | Some als => Ok (mkColl (map (fun '(m, al) => mkM (mkey m) (mshape m) al (mseq m)) (combine ms' als)) true)
         end
     end.
 
